@@ -34,6 +34,7 @@ type c16ConnInput struct {
 	N        int       `json:"n"` // records written by the peer
 	Items    []c16Item `json:"items"`
 	JunkSeed uint64    `json:"junk_seed"`
+	SeqBase  uint64    `json:"seq_base,omitempty"` // the peer's record sequence number is moved here before it writes (large numbers)
 }
 
 type c16ConnObs struct {
@@ -83,6 +84,9 @@ func c16ConnRun(in c16ConnInput) (obs c16ConnObs, coqItems, coqOuts []string) {
 		}
 		sleep() // the server's last flight has been handled
 		capturing = true
+		if in.SeqBase != 0 {
+			c.VerifSetWriteSeq(in.SeqBase)
+		}
 		for i := 0; i < in.N; i++ {
 			c.Write([]byte(fmt.Sprintf("m%04d", i)))
 		}
@@ -290,6 +294,15 @@ func c16ConnGen(out *emit.Out, p params, r *rand.Rand) error {
 	n := 16
 	if p.tier == "thorough" {
 		n = 120
+	}
+	// sequence numbers that do not fit in 32 bits (the header field has 48): in-order records around 2^32
+	// and close to 2^48 must be delivered like any others
+	for k, base := range []uint64{1<<32 - 20, 1<<40 + 5, 1<<48 - 200} {
+		in := c16ConnInput{Suite: []uint16{0xe013, 0xe053}[k%2], Window: []int{0, 48, 100}[k%3], ReadFrom: k%2 == 0, N: 150, JunkSeed: r.Uint64(), SeqBase: base}
+		in.Items = c16ConnScript(r, in.N, in.Window, 10)
+		c16ConnAdd(out, "large-sequence-numbers", in)
+		in.ReadFrom = !in.ReadFrom
+		c16ConnAdd(out, "large-sequence-numbers", in)
 	}
 	for k := 0; k < n; k++ {
 		w := windows[k%len(windows)]
